@@ -366,7 +366,6 @@ type stateSel struct {
 // head) equal the abstract state after block n.
 func (k *checker) CheckStateAt(n int, g *chaingen.Gen, viaHead bool) {
 	b := k.m.Chain[n]
-	post := b.Post
 	readers := map[string]core.StateReader{}
 	r1, c1, err := k.n.BC.StateAtBlockNumber(b.B.Number)
 	if err != nil {
@@ -388,8 +387,16 @@ func (k *checker) CheckStateAt(n int, g *chaingen.Gen, viaHead bool) {
 		defer func() { _ = c3() }()
 		readers["HeadState"] = r3
 	}
+	k.checkReaders(b, readers, g)
+}
+
+// checkReaders compares everything readable through the given state readers with the reference state
+// as of block b. A reader named "Held..." was obtained at an earlier quiescent point (while b may have
+// been the head) and has been used before: it is still a read "at that block".
+func (k *checker) checkReaders(b *chaingen.Block, readers map[string]core.StateReader, g *chaingen.Gen) {
+	post := b.Post
 	addrs := append(append([]felt.Felt(nil), g.Addrs...), felt.One, felt.FromUint64[felt.Felt](2))
-	for _, name := range []string{"HeadState", "StateAtBlockHash", "StateAtBlockNumber"} {
+	for _, name := range []string{"HeadState", "StateAtBlockHash", "StateAtBlockNumber", "HeldStateAtBlockHash", "HeldStateAtBlockNumber"} {
 		r := readers[name]
 		if r == nil {
 			continue
